@@ -15,6 +15,7 @@ def check(chk, thorough=False):
     chk.run('C14.b', 'R-FLOW', 'reported session parameters are the peer-announced node id and MRUs and the negotiated keepalive', lambda ob: c14b(tree, ob), floor=4)
     chk.run('C14.c', 'R-CLAMP', 'send segment size never exceeds the peer segment MRU, also while adapting (= C04.e)', lambda ob: c04e(tree, ob), floor=2)
     chk.run('C14.e', 'R-TRUTH', 'the timers run on the configured values: the configuration loader hands every setting on as read, an idle time is derived only when none was given (is None, not falsy)', lambda ob: __import__('sa.props.common', fromlist=['config_verbatim']).config_verbatim(tree, ob, 'tcpcl/config.py'), floor=2)
+    chk.run('C14.f', 'R-ITER', 'closing completes: no loop of the session code changes the size of the container it iterates (a pop inside the report loop of close() raises before the connection is closed)', lambda ob: __import__('sa.props.common', fromlist=['iter_mutation']).iter_mutation(tree, ob, ['tcpcl/session.py', 'tcpcl/agent.py']), floor=1)
     chk.run('C14.d', 'R-PAIR', 'every send restarts both timers, every receive restarts the idle timer; timeouts send KEEPALIVE / start idle termination; close stops both', lambda ob: c14d(tree, ob), floor=8)
     chk.run('C14.e', 'R-ESCAPE', 'an endpoint already terminating whose idle timer fires closes instead of raising (= C09.e)', lambda ob: c09e(tree, ob, user_entry=False), floor=3)
 
@@ -98,6 +99,9 @@ def c14b(tree, ob):
     ka = [s for (f, s, k, v2) in stores_to_self_attr(msgr, '_keepalive_time') if f is fv.func]
     if ka and not fv.dominates(ka[0], st)[0]:
         ob.violate(SESS, fv.qual, 'keepalive=self._keepalive_time', 'the keepalive is reported before it was negotiated', st)
+    # ... the announced node ID reaches the record as announced: the text field of SESS_INIT only decodes, strictly
+    from .c15 import text_field_faithful
+    text_field_faithful(tree, ob)
     # ... and what the D-Bus method hands out is the record, through value-preserving conversions only
     fg = FuncView(tree, SESS, 'ContactHandler.get_session_parameters')
     loops = [n for n in walk_local(fg.func) if isinstance(n, ast.For) and 'self._sess_parameters' in src(n.iter)]
